@@ -120,6 +120,10 @@ func runC11(ci interface{}) Result {
 	}
 	// after Wait exactly one of the two holds, and it is the first terminal event of the program
 	end, cancelled, ok := engine.EndState(sc)
+	if tr.OutputErrs > 0 {
+		ok = false
+		r.Classes = append(r.Classes, "render-fault")
+	}
 	for _, e := range tr.Events {
 		if e.Point == "client.fillerr" || e.Point == "client.exterr" {
 			// a render error cancels the container at a point the program does not
